@@ -46,4 +46,5 @@ func runWitness(env *Env, rep *Report, name string, mk func() *Case) {
 var Checks = map[string]func(env *Env, rep *Report){
 	"C01": RunC01,
 	"C02": RunC02,
+	"C03": RunC03,
 }
